@@ -173,6 +173,27 @@ def path_ctor(ctx):
            'relpath between different roots is not rejected')
 
 
+def relpath_impl(ctx):
+    R = 'RELPATH-IMPL'
+    ctx.rule(R, 'BasePath.relpath computes the relative path with '
+             'posixpath.relpath on the two normalised suffixes (no hand-'
+             'rolled prefix arithmetic), then joins the prefix')
+    repo = ctx.repo
+    rp = repo.method(BP, 'relpath')
+    defs = [v for v in Q.local_assignments(rp.node, 'rel')]
+    ok = len(defs) == 1 and defs[0] is not None and isinstance(
+        defs[0], ast.Call) and unparse(defs[0].func) == \
+        'posixpath.relpath' and len(defs[0].args) == 2 and \
+        'self.suffix' in unparse(defs[0].args[0]) and \
+        'start.suffix' in unparse(defs[0].args[1])
+    ctx.ob(R, 'BasePath.relpath|posixpath.relpath(self, start)', ok, rp.node,
+           'the relative path is computed by {}'.format(
+               [unparse(d)[:60] if d is not None else '<loop/aug>'
+                for d in defs]))
+    ok = 'posixpath.join(prefix, rel)' in unparse(rp.node)
+    ctx.ob(R, 'BasePath.relpath|prefix-joined', ok, rp.node, '')
+
+
 def hash_eq(ctx):
     R = 'HASH-EQ'
     ctx.rule(R, 'for every class defining both __eq__ and __hash__, the '
@@ -285,3 +306,6 @@ def check(ctx):
     path_ctor(ctx)
     hash_eq(ctx)
     path_json(ctx)
+    relpath_impl(ctx)
+    from ..rules import pathops
+    pathops.check(ctx)
